@@ -91,6 +91,11 @@ func HarnessC19Recover() {
 	handle := func(ctx context.Context, spec Spec, h http.Header, r any) error {
 		calls++
 		seen = r
+		if pv == 2 {
+			// a recovery function may also return its coded error wrapped in
+			// another error: the code inside is what it meant
+			return &c02Wrapper{prefix: "recover", err: NewError(CodeDataLoss, errors.New("recovered"))}
+		}
 		if pv >= 6 {
 			// the usual shape of a recovery function: wrap what was recovered
 			return NewError(CodeDataLoss, &c02Wrapper{prefix: "recovered", err: r.(error)})
